@@ -140,6 +140,7 @@ contract(R + "Context._do_cleanups", props=P, params={"self": "ref:Context"}, se
 
 TARGET = ("(as_ref(ite(truthy(dict_value(kwargs, 'layer')) and has_key(kwargs, 'layer'), layer_frame(self, dict_value(kwargs, 'layer')), "
           "self._stack[0]), 'dict'))")
+macro("cl_target", ["self", "kwargs"], TARGET)
 oracle("layer_frame", ["ref", "val"], "val")      # innermost scope whose '@layer' is the given name (see _select_stack_frame_by_layer)
 contract("abs:Context._select_stack_frame_by_layer", trusted=False, params={"self": "ref:Context"}, pos_params=["self", "layer"],
          pure=True, result="dict:@cleanups=seq:any;@layer=str;*=any",
@@ -148,32 +149,49 @@ contract("abs:Context._select_stack_frame_by_layer", trusted=False, params={"sel
          ensures={"a-scope-of-the-stack": "exists(lambda k: 0 <= k < len(self._stack) and result is self._stack[k]) and result is layer_frame(self, layer)"},
          doc="call-site view of _select_stack_frame_by_layer (its own contract, proved above, says which scope)")
 CLIST = "as_list(dict_value(%s, '@cleanups'), 'any')"
+HAS_LAYER = "(has_key(kwargs, 'layer') and truthy(dict_value(kwargs, 'layer')))"
+NO_SUCH_LAYER = ("not exists(lambda k: 0 <= k < len(self._stack) and has_key(self._stack[k], '@layer') "
+                 "and dict_value(self._stack[k], '@layer') == dict_value(kwargs, 'layer'))")
+TC = CLIST % "old(cl_target(self, kwargs))"
 contract(R + "Context.add_cleanup", props=P,
          params={"self": "ref:Context", "cleanup_func": "ref:function", "args": "tuple:any", "kwargs": "dict"},
          self_classes=["Context"],
+         callsites={"self._select_stack_frame_by_layer": "abs:Context._select_stack_frame_by_layer"},
          requires={"a-scope-is-open": "len(self._stack) >= 1",
-                   "current-scope-has-a-cleanup-list":
-                       "has_key(self._stack[0], '@cleanups') and has_kind(dict_value(self._stack[0], '@cleanups'), 'list')",
-                   "no-layer-given": "not has_key(kwargs, 'layer')",
+                   "every-scope-has-a-cleanup-list":
+                       "forall(lambda k: implies(0 <= k < len(self._stack), has_key(self._stack[k], '@cleanups') and "
+                       "has_kind(dict_value(self._stack[k], '@cleanups'), 'list')))",
+                   "scopes-do-not-share-cleanup-lists":
+                       "forall(lambda a, b: implies(0 <= a < b and b < len(self._stack), "
+                       "dict_value(self._stack[a], '@cleanups') is not dict_value(self._stack[b], '@cleanups')))",
+                   "the-scope-stack-is-not-a-cleanup-list":
+                       "forall(lambda k: implies(0 <= k < len(self._stack), dict_value(self._stack[k], '@cleanups') is not self._stack))",
+                   "the-keyword-dictionary-is-the-call's-own": "forall(lambda k: implies(0 <= k < len(self._stack), self._stack[k] is not kwargs))",
+                   "a-layer-name-is-a-string-or-none": "implies(has_key(kwargs, 'layer'), is_none(dict_value(kwargs, 'layer')) or "
+                                                       "has_kind(dict_value(kwargs, 'layer'), 'str'))",
                    "a-callable-is-registered": "uf_bool('is_callable', cleanup_func)"},
-         modifies=["list(dict_value(self._stack[0], '@cleanups'))", "dict(kwargs)"],
+         modifies=["lists", "dict(kwargs)"],
+         raises=[Raises("LookupError", when="%s and %s" % (HAS_LAYER, NO_SUCH_LAYER), label="unknown-layer-name")],
          ensures={
-             "registered-at-the-end-of-the-current-scope's-list-unless-already-there":
+             "registered-at-the-end-of-the-target-scope's-list-unless-already-there":
                  "implies(not exists(lambda k: 0 <= k < old(len(%(c)s)) and old(%(c)s[k]) == cleanup_func), "
-                 "len(%(c)s) == old(len(%(c)s)) + 1)" % {"c": CLIST % "self._stack[0]"},
+                 "len(%(c)s) == old(len(%(c)s)) + 1)" % {"c": TC},
              "plain-registration-stores-the-function-itself":
-                 "implies(len(args) == 0 and old(len(kwargs)) == 0 and "
+                 "implies(len(args) == 0 and old(len(kwargs)) == (1 if old(has_key(kwargs, 'layer')) else 0) and "
                  "not exists(lambda k: 0 <= k < old(len(%(c)s)) and old(%(c)s[k]) == cleanup_func), "
-                 "%(c)s[len(%(c)s) - 1] == cleanup_func)" % {"c": CLIST % "self._stack[0]"},
-             "duplicate-plain-registration-ignored":
+                 "%(c)s[len(%(c)s) - 1] == cleanup_func)" % {"c": TC},
+             "duplicate-plain-registration-in-the-target-scope-ignored":
                  "implies(exists(lambda k: 0 <= k < old(len(%(c)s)) and old(%(c)s[k]) == cleanup_func), "
-                 "len(%(c)s) == old(len(%(c)s)))" % {"c": CLIST % "self._stack[0]"},
+                 "len(%(c)s) == old(len(%(c)s)))" % {"c": TC},
              "earlier-registrations-kept-in-order":
-                 "forall(lambda k: implies(0 <= k < old(len(%(c)s)), %(c)s[k] == old(%(c)s[k])))" % {"c": CLIST % "self._stack[0]"},
+                 "forall(lambda k: implies(0 <= k < old(len(%(c)s)), %(c)s[k] == old(%(c)s[k])))" % {"c": TC},
+             "no-other-scope's-cleanup-list-changes":
+                 "forall(lambda j: implies(0 <= j < len(self._stack) and self._stack[j] is not old(cl_target(self, kwargs)), "
+                 "len(%(o)s) == old(len(%(o)s)) and forall(lambda k: implies(0 <= k < len(%(o)s), %(o)s[k] == old(%(o)s[k])))))"
+                 % {"o": CLIST % "self._stack[j]"},
          },
-         doc="registration for the current scope (no layer=); the layer= form goes through "
-             "_select_stack_frame_by_layer (proved above) and is covered by the bounded histories")
-
+         doc="old(cl_target(self, kwargs)) = the innermost scope named by layer= when a (truthy) layer is given, else the current scope; "
+             "which scope a name denotes is _select_stack_frame_by_layer's own contract (proved above)")
 
 prop("C13", level="proof", bounded=[],
      explanation="proved on the real Context methods: attribute lookup returns the value of the innermost open scope that has "
@@ -182,10 +200,11 @@ prop("C13", level="proof", bounded=[],
                  "holding only its bookkeeping keys and keeps the outer scopes in order; _pop removes exactly the innermost "
                  "scope on normal AND exceptional exit of the cleanups; _do_cleanups calls every registered function exactly "
                  "once in reverse registration order even when some raise, and raises iff one raised (and failing is on); "
-                 "add_cleanup appends to the current scope's list unless already registered; layer lookup finds the innermost "
+                 "add_cleanup appends to the list of the target scope -- the current one, or with layer= the innermost scope of that "
+                 "name (LookupError if there is none) -- unless already registered there, and changes no other scope's list; layer lookup finds the innermost "
                  "scope of that name. Scope balance of every run method and 'raising cleanup fails the element and the run' "
                  "are proved over the abstract Context in the run-method contracts. Bounded: __setattr__ (stack inspection, "
-                 "warnings), use_fixture, execute_steps, add_cleanup(layer=...), whole operation histories",
+                 "warnings), use_fixture, execute_steps, whole operation histories",
      technique="contract-based deductive verification (own VC generator over the real ASTs, z3/cvc5) of the Context methods "
                "and of scope balance in the run methods; bounded model-based histories for the rest",
      notes=_RUN_NOTES + ["user cleanups are assumed not to push/pop scopes or edit the cleanup list they are run from (A-user)",
